@@ -3065,3 +3065,166 @@ Section QuietRun.
       + pose proof (pump_write_some_quiet _ _ _ H2 K1 Q2). lia.
   Qed.
 End QuietRun.
+
+(* ================================================================== the two capacities never change *)
+Section Consts.
+  Context {T : Type}.
+  Variable tp : transport T cmsg resp.
+  Variable fuel_of : @cstate T -> nat.
+  Notation cstate := (@cstate T).
+  Implicit Types s : cstate.
+
+  Definition CF s s' : Prop := q_cap s' = q_cap s /\ max_if s' = max_if s.
+  Lemma CF_refl s : CF s s. Proof. split; reflexivity. Qed.
+  Lemma CF_trans s1 s2 s3 : CF s1 s2 -> CF s2 s3 -> CF s1 s3.
+  Proof. intros [A B] [C D]. split; congruence. Qed.
+  Lemma CF_U s s' : UFrame s s' -> CF s s'.
+  Proof. intro F. split; apply F. Qed.
+  Lemma CF_P s s' : PFrame s s' -> CF s s'.
+  Proof. intro F. split; apply F. Qed.
+
+  Lemma CF_poll_dispatch f s r s' : poll_dispatch tp f s = (r, s') -> CF s s'.
+  Proof.
+    unfold poll_dispatch. intro H. destruct (terminal s).
+    - destruct (shut_down s a) as [b s1] eqn:E. apply PFrame_shut_down, CF_P in E.
+      destruct b; injection H as _ <-; exact E.
+    - destruct (run_loop tp f s) as [rr s1] eqn:E. apply PFrame_run_loop, CF_P in E.
+      destruct rr; try (injection H as _ <-; exact E).
+      destruct (shut_down (upd_term s1 (Some a)) a) as [b s2] eqn:E2. apply PFrame_shut_down, CF_P in E2.
+      assert (X : CF s s2) by (eapply CF_trans; [exact E|]; eapply CF_trans; [|exact E2]; split; reflexivity).
+      destruct b; injection H as _ <-; exact X.
+  Qed.
+
+  Lemma CF_after_pd r s : CF s (after_pd r s).
+  Proof. unfold after_pd. destruct r; split; reflexivity. Qed.
+
+  Lemma CF_drop_dispatch s : CF s (drop_dispatch s).
+  Proof.
+    unfold drop_dispatch. set (s1 := q_close s).
+    set (s2 := fold_left (fun acc q => slot_tx_drop acc (q_id q)) (queue s1) s1).
+    set (s3 := fold_left (fun acc p => slot_tx_drop acc (fst p)) (inflight s2) s2).
+    assert (X : CF s s3).
+    { eapply CF_trans; [apply CF_P, IFrame_P, IFrame_q_close|].
+      eapply CF_trans; [apply CF_P, TFrame_P, (TFrame_fold_slot_tx_drop q_id)|].
+      apply CF_P, TFrame_P, (TFrame_fold_slot_tx_drop fst). }
+    destruct X as [A B]. split; cbn [q_cap max_if upd_fin upd_cancels upd_if upd_q]; assumption.
+  Qed.
+
+  Lemma CF_step s o : CF s (fst (step tp fuel_of s o)).
+  Proof.
+    destruct (step tp fuel_of s o) as [s' os] eqn:E. cbn [fst].
+    destruct o; try (apply CF_U; eapply UFrame_step; [exact E|discriminate|discriminate]).
+    - cbn [step] in E. destruct (finished s); [injection E as <- _; apply CF_refl|].
+      destruct (dropped s); [injection E as <- _; apply CF_refl|].
+      destruct (poll_dispatch tp _ _) as [r s1] eqn:Ep. injection E as <- _.
+      eapply CF_trans; [|apply (CF_after_pd r s1)].
+      eapply CF_trans; [|eapply CF_poll_dispatch, Ep]. split; reflexivity.
+    - cbn [step] in E. injection E as <- _. destruct (dropped s); [apply CF_refl|apply CF_drop_dispatch].
+  Qed.
+
+  Lemma CF_poll_calls n : forall s i acc, CF s (fst (poll_calls s i n acc)).
+  Proof.
+    induction n as [|n IH]; intros s i acc; [apply CF_refl|]. rewrite poll_calls_step.
+    destruct (match nth_error (calls s) i with Some c => is_live (c_phase c) | None => false end); [|apply IH].
+    pose proof (CF_U _ _ (UFrame_poll_call s i)) as F. destruct (poll_call s i) as [r s1]. cbn [snd] in F.
+    eapply CF_trans; [exact F|apply IH].
+  Qed.
+
+  Lemma CF_round s o : CF s (fst (fst (round tp fuel_of s o))).
+  Proof.
+    unfold round.
+    assert (X : CF s (fst (disp_half tp fuel_of s o))).
+    { unfold disp_half. destruct (finished s); [apply CF_refl|]. destruct (dropped s); [apply CF_refl|].
+      destruct (poll_dispatch tp _ _) as [r s1] eqn:Ep. cbn [fst].
+      eapply CF_trans; [|apply (CF_after_pd r s1)].
+      eapply CF_trans; [|eapply CF_poll_dispatch, Ep]. split; reflexivity. }
+    destruct (disp_half tp fuel_of s o) as [s1 o1]. cbn [fst] in X.
+    pose proof (CF_poll_calls (length (calls s1)) s1 0 []) as Y.
+    destruct (poll_calls s1 0 (length (calls s1)) []) as [s2 dn]. cbn [fst] in *.
+    eapply CF_trans; eassumption.
+  Qed.
+
+  Lemma CF_settle n : forall s o, CF s (fst (settle tp fuel_of n s o)).
+  Proof.
+    induction n as [|n IH]; intros s o; [apply CF_refl|]. rewrite settle_S.
+    pose proof (CF_round s o) as X. destruct (round tp fuel_of s o) as [[s2 o2] q]. cbn [fst] in X.
+    destruct q; [exact X|]. eapply CF_trans; [exact X|apply IH].
+  Qed.
+End Consts.
+
+Lemma CF_wfinal_from ops : forall s, CF s (wfinal_from s ops).
+Proof.
+  induction ops as [|o r IH]; intro s; cbn [wfinal_from]; [apply CF_refl|].
+  eapply CF_trans; [|apply IH]. destruct o as [o|]; cbn [wstep].
+  - pose proof (CF_step stp sfuel s (to_op o)) as X. destruct (step stp sfuel s (to_op o)). exact X.
+  - pose proof (CF_settle stp sfuel (rounds_of s + length (st_inbox (tr s))) s sobs0) as X.
+    destruct (settle stp sfuel _ s sobs0). exact X.
+Qed.
+
+(* ================================================================== C02: quiescence *)
+Theorem c02_quiescent_holds : stmt_c02_quiescent.
+Proof.
+  unfold stmt_c02_quiescent. intros c ops Hw Hq1 Hm1 Hs HWr Hin Heof Hf Hd i k Ek Hl.
+  pose proof (settled_final c ops Hw Hs) as HF. cbv zeta in HF. destruct HF as [I Q].
+  destruct (CF_wfinal_from (ops ++ [WSettle]) (cinit c)) as [Cq Cm].
+  change (q_cap (cinit c)) with (cf_qcap c) in Cq. change (max_if (cinit c)) with (cf_maxif c) in Cm.
+  fold (wfinal c (ops ++ [WSettle])) in Cq, Cm.
+  set (s := wfinal c (ops ++ [WSettle])) in *.
+  (* the last dispatch poll *)
+  destruct (qf_disp _ _ _ Q Hf Hd) as (sa & sb & Ia & Pa & Ta & Ep & Es & Qs & Qr & Ln & Tb).
+  assert (Er : run_loop stp (sfuel sa) sa = (RunPending, sb)).
+  { unfold poll_dispatch in Ep. rewrite Ta in Ep.
+    destruct (run_loop stp (sfuel sa) sa) as [rr s1] eqn:Er.
+    destruct rr as [|a| |]; try discriminate; [|injection Ep as ->; reflexivity].
+    exfalso. destruct (shut_down (upd_term s1 (Some a)) a) as [b s2] eqn:E2.
+    pose proof (pf_terminal _ _ (PFrame_shut_down _ _ _ _ E2)) as X. cbn [terminal upd_term] in X.
+    assert (s2 = sb) by (destruct b; congruence). subst s2. congruence. }
+  assert (HWb : Wp (tr sb)).
+  { apply writable_Wp. rewrite Es in HWr. exact HWr. }
+  destruct (quiet_run _ _ _ Er (conj Qs Qr) (iv_k _ Ia) Ln HWb) as [Hfut Hfull].
+  assert (Efut : forall id w, In (id, w) (timers s) -> now s < w) by (rewrite Es; exact Hfut).
+  assert (Efull : queue s <> [] -> (max_if s <= length (inflight s))%nat) by (rewrite Es; exact Hfull).
+  assert (Tn : terminal s = None) by (rewrite Es; exact Tb).
+  pose proof (iv_x _ I) as X. pose proof (ix_w _ X) as W.
+  assert (Hopen : rx_closed s = false).
+  { destruct (rx_closed s) eqn:Ec; [|reflexivity]. destruct (r_closed _ (iv_r _ I) Ec); congruence. }
+  assert (Hfullc : queue s <> [] -> inflight s <> [] /\ length (inflight s) = max_if s).
+  { intro Hne. specialize (Efull Hne). pose proof (k_bound _ (iv_k _ I)) as Kb.
+    split; [|lia]. intro E0. rewrite E0 in Efull. cbn in Efull. lia. }
+  split; [|split; [exact Efut|]].
+  - (* the in-flight table is not empty *)
+    destruct (qf_calls _ _ _ Q i k Ek Hl) as [Hp|(Hp & Hv & Ht)].
+    + apply Hfullc. intro Hq0.
+      pose proof (w_in _ _ W i k Ek Hp) as Hwi.
+      assert (Hwn : waiters s <> []) by (intro E0; rewrite E0 in Hwi; exact Hwi).
+      pose proof (w_perm _ _ W Hopen Hwn) as Hp0. pose proof (w_acct _ _ W Hopen) as Ha.
+      assert (Hz : count is_asg (calls s) = 0%nat).
+      { destruct (count is_asg (calls s)) eqn:E0; [reflexivity|exfalso].
+        destruct (count_ex is_asg (calls s)) as (j & kj & Ej & Hj); [lia|].
+        unfold is_asg in Hj. destruct (c_phase kj) eqn:Hpj; try discriminate.
+        destruct (qf_calls _ _ _ Q j kj Ej) as [Y|[Y _]]; [rewrite Hpj; reflexivity|congruence|congruence]. }
+      rewrite Hq0, Hp0, Hz in Ha. cbn in Ha. lia.
+    + destruct (iv_l _ I i k Ek Hp) as [L|[L|[L|L]]].
+      * apply Hfullc. intro E0. rewrite E0 in L. exact L.
+      * intro E0. rewrite E0 in L. exact L.
+      * contradiction.
+      * congruence.
+  - (* where the live call's request is *)
+    destruct (qf_calls _ _ _ Q i k Ek Hl) as [Hp|(Hp & Hv & Ht)].
+    + right. apply Hfullc. intro Hq0.
+      pose proof (w_in _ _ W i k Ek Hp) as Hwi.
+      assert (Hwn : waiters s <> []) by (intro E0; rewrite E0 in Hwi; exact Hwi).
+      pose proof (w_perm _ _ W Hopen Hwn) as Hp0. pose proof (w_acct _ _ W Hopen) as Ha.
+      assert (Hz : count is_asg (calls s) = 0%nat).
+      { destruct (count is_asg (calls s)) eqn:E0; [reflexivity|exfalso].
+        destruct (count_ex is_asg (calls s)) as (j & kj & Ej & Hj); [lia|].
+        unfold is_asg in Hj. destruct (c_phase kj) eqn:Hpj; try discriminate.
+        destruct (qf_calls _ _ _ Q j kj Ej) as [Y|[Y _]]; [rewrite Hpj; reflexivity|congruence|congruence]. }
+      rewrite Hq0, Hp0, Hz in Ha. cbn in Ha. lia.
+    + destruct (iv_l _ I i k Ek Hp) as [L|[L|[L|L]]].
+      * right. apply Hfullc. intro E0. rewrite E0 in L. exact L.
+      * left. exact L.
+      * contradiction.
+      * congruence.
+Qed.
+Print Assumptions c02_quiescent_holds.
